@@ -250,6 +250,9 @@ func (ex *Exec) callIntrinsic(fr *frame, pos token.Pos, fn *ssa.Function, args [
 		return nil
 	case "ClockReads":
 		return b.I64(int64(ex.nowCalls))
+	case "SplitCalendar":
+		ex.splitCalendar = true
+		return nil
 	case "IgnorePanics":
 		ex.lim.NoPanicCheck = true
 		return nil
